@@ -35,7 +35,7 @@ def _known_kinds(pid):
     p = os.path.join(VERIF, "known_findings.txt")
     if os.path.exists(p):
         for line in open(p):
-            if line.startswith("open:") and ("property=%s " % pid) in line:
+            if line.startswith("open:"):   # whatever property it is listed under: a known finding is never a witness
                 m = re.search(r"search_kind=(\S+)", line)
                 if m:
                     out.add(m.group(1))
